@@ -39,7 +39,9 @@ CLAIMS = {
          "the tree, with the fuel parse_tokens allots; and from the source BYTES (Proofs/LexRound.v + TemplatePipeline.v): a source that spells "
          "a checked list of items whose tokens are those of a tree that spells the specification template ns (first line) is lexed to those "
          "tokens, parsed to the program of ns and rendered by the model of EvaluateString as the specification says "
-         "(C02_from_source_bytes_to_output). Tied to evaluator.go / parser.go / lexer.go by the correspondence run; the specification is "
+         "(C02_from_source_bytes_to_output); Proofs/LineIrrelevance.v (programs equal up to line fields evaluate alike except for the "
+         "line of an error - mutual induction over all nine evaluation functions) lifts this to templates on any number of lines "
+         "(C02_from_source_bytes_to_output_any_lines). Tied to evaluator.go / parser.go / lexer.go by the correspondence run; the specification is "
          "also the oracle on enumerated @if shapes.", "8.C02",
          "refinement proof model-evaluator vs big-step specification + correspondence + extracted specification as oracle"),
  "C03": ("proof", "Same refinement theorem for loops: the model's each_loop / for_loop (marker objects found by a recursive scan through "
